@@ -350,6 +350,8 @@ def convert_value(eng, v, src, tgt, sp):
             return eng.run_body(eng.body(nm), [v])
     if isinstance(v, Opaque) and v.ty == tb:
         return v
+    if tb in STRLIKE and isinstance(v, Ref) and isinstance(deref_all(v), (Bytes, Vec)):
+        v = deref_all(v)          # From<&PathBuf> for PathBuf and friends: a copy
     if tb in STRLIKE and isinstance(v, (Bytes, Vec)):
         owned = tb in ('String', 'OsString', 'PathBuf', 'Vec', 'CString') and not tgt.strip().startswith('&')
         if owned:
@@ -1173,3 +1175,23 @@ def REGISTRY_as_ref(eng, v, kind):
 @S('const std::path::MAIN_SEPARATOR', 'const path::MAIN_SEPARATOR', 'const MAIN_SEPARATOR')
 def _(eng):
     return 47
+
+
+@S('downcast_ref')
+def _(eng, ci, a, sp):
+    """<dyn Error>::downcast_ref::<T>(): Some(&T) iff the object behind the reference is a T"""
+    import re
+    m = re.search(r'downcast_ref::<([^>]+)>', ci.raw or '')
+    if not m:
+        raise Unsupported('downcast_ref without a type argument: %s' % ci.raw)
+    want = type_base(m.group(1))
+    r = a[0]
+    v = deref_all(r)
+    d = 0
+    while isinstance(v, Struct) and v.name == 'Box' and d < 4:
+        r = v.f[0]
+        v = deref_all(r)
+        d += 1
+    if eng.runtime_type(v) == want:
+        return some(r if isinstance(r, Ref) else new_cell(v))
+    return none()
